@@ -189,6 +189,7 @@ func runC09(c *Ctx) {
 	checkNilErrorDereferenced(c, fns)
 	checkHandlerMaps(c, via)
 	checkLogArgumentPositive(c, fns)
+	checkNoSendToFinishedService(c)
 
 	// ---- validators answer Reject/Ignore on error edges
 	acc, _ := p.constValue("pkg/p2p", "ValidationAccept")
